@@ -21,6 +21,8 @@ TEXT = {
  'C10': ("Store::handle_deletion_event is proved to change, between the transaction view it is given and the one it leaves, only: address markers whose key is an address of the requester's own pubkey, id markers of ids that are absent from the committed store or belong to the requester's own event, and index entries that are keys of stored events authored by the requester (deletion_delta_ok), for any number and order of tags; store_event commits only on success.", "LMDB by contract; events in the map with equal ids are not assumed to be equal (no hash assumption)."),
  'C11': ("mark_naddr_deleted stores max(previous, when) for exactly the address key and changes nothing else; when_is_naddr_deleted reads that key; key_naddr_index equals the documented 217-byte layout; store_event refuses events whose id is marked deleted and replaceable events covered by an address marker (created_at <= marker).", "LMDB by contract. The parameterized-replaceable marker clause of store_event is listed under not_decided."),
  'C12': ("Store::store_event: r is Err ==> the committed LMDB state is exactly the state before the call (Txn::commit is the only operation whose contract changes it and it is the last effectful step); the event map only grows. Same for remove_event.", "Observables are functions of the committed tables; find_events is not under contract."),
+ 'C16': ("The marker codec that rebuild relies on is proved: dump_naddr_deleted returns one (address, time) pair per entry of the deleted-address table and key_naddr_index of that address is exactly the entry's key (for every d length, including d longer than 182 bytes), dump_deleted returns exactly the marked ids, mark_naddr_deleted/mark_deleted write exactly that key; index(event, offset) is a function of (event, offset) adding exactly the event's keys; the event store appends exactly the event bytes at an 8-aligned offset.",
+         "Store::rebuild's own loops, file moves and reopen are not under contract (see coverage.not_decided)."),
  'C17': ("Lmdb::index adds exactly the event's keys (id, ci, akc, ac and one tc/atc/ktc key per indexable tag) mapping to the offset and changes nothing else, over the whole of all tables; deindex + deindex_id remove exactly those keys; key builders equal the documented layouts.", "The 'every filter shape returns it' half lives in find_events (not applicable to this technique)."),
  'C18': ("Store::remove_event: absent id => committed state unchanged; present id => exactly the keys of that event disappear from every table, no marker is written; error => nothing committed. store_event of an ephemeral kind succeeds and leaves the committed state unchanged.", "vanish is not under contract (calls find_events)."),
  'C19': ("Event::from_parts yields exactly the canonical packing of its parts (view equality on all seven fields, well-formedness) or an error when the length does not fit 32 bits or the buffer is too small; the JSON tag/filter readers refuse counts/lengths over 65535 (proved as absence of truncating casts: every `as u16` is dominated by a range check, discharged as part of the overflow obligations).", "Tags::from_parts / Filter::from_parts view equality not yet under contract."),
@@ -33,7 +35,6 @@ NA = {
  'C15': "address stability of an mremap'd mapping behind unsafe slice construction is not expressible as a contract over Rust values; the byte-content half is C04.",
 }
 PENDING = {
- 'C16': "marker codec / rebuild contracts not yet built",
 }
 
 def main():
